@@ -20,13 +20,20 @@ type Ctx struct {
 	Seed    int64
 	Scratch string
 	Only    string // replay: restrict to this case id
+	// Full makes the quick tier enumerate the whole catalogue of a check (set for the checks whose
+	// complete catalogue costs well under a minute); the tiers then differ in the number of
+	// value combinations per message and in the number of concretisation passes
+	Full bool
 }
 
 // Want reports whether a case is selected (replay filter).
 func (c *Ctx) Want(caseID string) bool { return c.Only == "" || c.Only == caseID }
 
 // Thorough reports whether the thorough tier runs.
-func (c *Ctx) Thorough() bool { return c.Tier == "thorough" }
+func (c *Ctx) Thorough() bool { return c.Tier == "thorough" || c.Full }
+
+// FullInQuick lists the checks whose quick tier runs the complete catalogue.
+var FullInQuick = map[string]bool{"C02": true, "C03": true, "C06": true, "C07": true, "C08": true, "C09": true, "C10": true, "C12": true, "C14": true, "C16": true, "C18": true, "C19": true, "C20": true}
 
 // Rng returns a PRNG derived from the seed and a label (stable per label).
 func (c *Ctx) Rng(label string) *rand.Rand {
